@@ -630,11 +630,47 @@ rc::Gen<Case> gen_stat() {
                    rc::gen::just(std::vector<Op>{}));
 }
 
+// ---------------------------------------------------------------- integer weights beyond 2^53
+// The main history keeps totals below 2^50 so that one model serves the double weight type too. Integral weight types take any 64-bit
+// weight: single updates between 2^53 and 2^60 with low bits set (not representable as a double), two sketches, merge, both
+// serialized forms; totals and counters are kept in 128-bit integers.
+template <typename W> void big_weights(const Case& cs) {
+  vf::Rng r(static_cast<uint64_t>(cs.get("seed", 1)));
+  const uint8_t h = static_cast<uint8_t>(1 + r.below(5)); const uint32_t b = static_cast<uint32_t>(3 + r.below(40));
+  count_min_sketch<W> a(h, b), c(h, b);
+  unsigned __int128 total = 0; std::map<uint64_t, unsigned __int128> truth;
+  const uint64_t nupd = 1 + static_cast<uint64_t>(cs.get("n", 3)) % 6;
+  for (uint64_t i = 0; i < nupd; ++i) {
+    const uint64_t item = r.below(5);
+    const uint64_t w = ((1ull << 53) + (r.next() % (1ull << 59))) | 1ull;
+    ((i & 1) ? a : c).update(item, static_cast<W>(w));
+    total += w; truth[item] += w;
+  }
+  auto check = [&](const count_min_sketch<W>& sk, unsigned __int128 tot, const std::map<uint64_t, unsigned __int128>& tr, const char* what) {
+    VF_CHECK(static_cast<unsigned __int128>(static_cast<uint64_t>(sk.get_total_weight())) == tot, "big-weight-total", what << ": total weight " << sk.get_total_weight() << " is not the exact sum of the update weights (low 64 bits " << static_cast<uint64_t>(tot) << ")");
+    for (const auto& kv : tr) {
+      const unsigned __int128 est = static_cast<uint64_t>(sk.get_estimate(kv.first));
+      VF_CHECK(est >= kv.second && est <= tot, "big-weight-estimate", what << ": estimate " << static_cast<uint64_t>(est) << " of item " << kv.first << " outside [true weight, total weight]");
+    }
+  };
+  a.merge(c);
+  check(a, total, truth, "merged sketch");
+  auto bytes = a.serialize();
+  check(count_min_sketch<W>::deserialize(bytes.data(), bytes.size()), total, truth, "sketch restored from bytes");
+  std::stringstream ss(std::ios::in | std::ios::out | std::ios::binary); a.serialize(ss);
+  check(count_min_sketch<W>::deserialize(ss), total, truth, "sketch restored from a stream");
+  vf::label(std::is_signed<W>::value ? "big-weights:int64" : "big-weights:uint64");
+  vf::nontrivial();
+}
+void prop_big(const Case& cs) { if (cs.get("w", 0) & 1) big_weights<int64_t>(cs); else big_weights<uint64_t>(cs); }
+rc::Gen<Case> gen_big() { using namespace vf; return make_case({{"seed", range(1, 1 << 30)}, {"n", range(0, 5)}, {"w", range(0, 1)}}, rc::gen::just(std::vector<Op>{})); }
+
 }  // namespace
 
 int main(int argc, char** argv) {
   std::vector<vf::Sub> subs;
   subs.push_back({"main", gen_main, prop_main, 1.0});
+  subs.push_back({"big_weights", gen_big, prop_big, 0.1});
   subs.push_back({"large", gen_large, prop_large, 0.04, 60});
   subs.push_back({"ctor", gen_ctor, prop_ctor, 0.15});
   subs.push_back({"stat", gen_stat, prop_stat, 0.08});
